@@ -356,7 +356,7 @@ def transform_item(t: Txt, opts, subs, log, label):
         elif sb.kind == 'sub':
             rule, rx, new, count = sb.arg
             ms = list(re.finditer(rx, t.s, re.S))
-            if count == -1 and len(ms) <= 1:
+            if (count == -1 and len(ms) <= 1) or count == -2:
                 pass    # count=? : an optional ghost hint (R3) — applied if its anchor is there
             elif len(ms) != count:
                 raise ExtractError(f"{label}: sub {rule} /{rx}/: expected {count} match(es), found {len(ms)}")
@@ -637,7 +637,7 @@ def assemble(template_path, repo_root, verif_root):
                         m2 = re.compile(r'\s*=>\s*').match(r2, p)
                         new, p = parse_lit(r2, m2.end())
                         kv = parse_kv(r2[p:])
-                        cur = Sub('sub', (rule, rx, new, -1 if kv.get('count') == '?' else int(kv.get('count', 1))), i + 1); subs.append(cur); cur = None
+                        cur = Sub('sub', (rule, rx, new, -1 if kv.get('count') == '?' else (-2 if kv.get('count') == '*' else int(kv.get('count', 1)))), i + 1); subs.append(cur); cur = None
                     else:
                         raise ExtractError(f"{tl_origin[i+1]}: unknown item directive '{w2}'")
                 else:
